@@ -44,6 +44,38 @@ def hull2Oracle (pts : List (V2 Float)) (idx : List Nat) : String :=
   | p :: _ => s!"fail input-point-outside-hull ({p.x},{p.y})"
   | [] => "pass"
 
+
+/-- `ConvexPolygon::from_convex_hull`: vertices are input points, counter-clockwise, enclose every input point, and
+normal `i` is the outward unit normal of edge `i → i+1` -/
+def polygonOracle (input : List (V2 Float)) (pts : List (V2 Float)) (nrm : List (V2 Float)) : String :=
+  let P := input.map q2; let V := pts.map q2; let N := nrm.map q2
+  let m := V.length
+  if m < 3 then "fail fewer-than-3-vertices" else
+  if N.length != m then "fail normal-count" else
+  let scale := 1 + maxAbs2 P
+  let tol : Rat := scale / 1000000000
+  if V.any (fun v => !(P.any fun p => p.x == v.x && p.y == v.y)) then "fail vertex-not-an-input-point" else
+  let vAt (i : Nat) : V2 Rat := (V[i % m]?).getD ⟨0, 0⟩
+  let area2 := (List.range m).foldl (fun s i => s + (vAt i).perp (vAt (i + 1))) 0
+  if area2 ≤ 0 then "fail not-counter-clockwise" else
+  if (List.range m).any (fun i => cross2 (vAt i) (vAt (i + 1)) (vAt (i + 2)) < -(tol * scale)) then "fail reflex-corner" else
+  let badPt := P.filter fun p => (List.range m).any fun i =>
+    let a := vAt i; let b := vAt (i + 1)
+    let c := cross2 a b p
+    c < 0 && c * c > tol * tol * (b.sub a).normSq
+  match badPt with
+  | p :: _ => s!"fail input-point-outside-polygon ({p.x},{p.y})"
+  | [] =>
+    -- normals: unit, orthogonal to their edge, pointing outward (to the right of a CCW edge)
+    let badN := (List.range m).filter fun i =>
+      let e := (vAt (i + 1)).sub (vAt i)
+      let n := (N[i]?).getD ⟨0, 0⟩
+      let t9 : Rat := 1 / 1000000000
+      !(rabs (n.normSq - 1) ≤ t9) || !(rabs (n.dot e) ≤ t9 * (1 + e.normSq)) || !(e.x * n.y - e.y * n.x < 0)
+    match badN with
+    | i :: _ => s!"fail normal-{i}-does-not-match-its-edge"
+    | [] => "pass"
+
 def pmesh3 : P (List (V3 Float) × List (Nat × Nat × Nat)) := do
   let pts ← plist (do let x ← pfo; let y ← pfo; let z ← pfo; pure (⟨x, y, z⟩ : V3 Float))
   let tris ← plist (do let a ← pnat; let b ← pnat; let c ← pnat; pure (a, b, c))
@@ -133,6 +165,24 @@ def handler (fn : String) : Option Handler :=
             if h2.length < 3 then "fail hull-of-hull-degenerate" else
             if H1.all (inside H2) && H2.all (inside H1) then "pass" else "fail hull-of-hull-is-a-different-polytope"
           | none => "fail unparsable-output" }
+  | "convex_polygon" => some {
+      model := fun _ => some "-"
+      oracle := fun a o => match run (plist pv2) a with
+        | some input => (match o with
+          | "panic" :: _ => "fail panic"
+          | ["none"] =>
+            -- None is legitimate only for degenerate (collinear) input
+            let P := input.map q2
+            (match P with
+            | a :: rest => match rest.find? (fun b => b.x != a.x || b.y != a.y) with
+              | none => "skip degenerate"
+              | some b => if rest.all (fun c => cross2 a b c == 0) then "skip degenerate" else "fail none-for-nondegenerate-cloud"
+            | [] => "skip degenerate")
+          | _ => match run (do let pts ← plist (do let x ← pfo; let y ← pfo; pure (⟨x, y⟩ : V2 Float))
+                                 let ns ← plist (do let x ← pfo; let y ← pfo; pure (⟨x, y⟩ : V2 Float)); pure (pts, ns)) o with
+            | some (pts, ns) => polygonOracle input pts ns
+            | none => "fail unparsable-output")
+        | none => "skip bad-args" }
   | "hull3" => some {
       model := fun _ => some "-"
       oracle := fun a o => match run (plist pv3) a with
